@@ -274,6 +274,27 @@ def build_tool(name):
     return exe
 
 
+def build_shlib(name):
+    """Compile /verif/tools/<name>.c into a shared object for LD_PRELOAD (independent of the repo tree)."""
+    src = os.path.join(VERIF, "tools", name + ".c")
+    with open(src, "rb") as fh:
+        hh = hashlib.sha256(fh.read()).hexdigest()[:12]
+    d = os.path.join(CACHE, "tools")
+    so = os.path.join(d, "%s_%s.so" % (name, hh))
+    if os.path.exists(so):
+        return so
+    with Lock(os.path.join(CACHE, "lock.tool." + name)):
+        if os.path.exists(so):
+            return so
+        os.makedirs(d, exist_ok=True)
+        tmp = so + ".tmp%d" % os.getpid()
+        p = subprocess.run(["gcc", "-O1", "-shared", "-fPIC", "-w", src, "-o", tmp, "-ldl"], stdout=subprocess.PIPE, stderr=subprocess.STDOUT)
+        if p.returncode:
+            raise RuntimeError("shared object %s failed to compile:\n%s" % (name, p.stdout.decode()[-3000:]))
+        os.rename(tmp, so)
+    return so
+
+
 if __name__ == "__main__":
     for v in sys.argv[1:] or ["rel", "asan"]:
         print(build(v))
